@@ -48,6 +48,11 @@ def make_net(seed, idx, stratum):
 def run_net(args):
     seed, idx, stratum, cfgs = args
     net = make_net(seed, idx, stratum)
+    # every third network carries heap payloads and runs under a collection schedule
+    gc_opts = []
+    if idx % 3 == 2:
+        net['payload'] = 'heap'
+        gc_opts = ['--gc', 'every:2', '--sweep', 'alt', '--alloc', 'quarantine']
     text = gen_chan.to_source(net)
     d = os.path.join(WORK, '%s_%d_%d' % (stratum, seed, idx))
     os.makedirs(d, exist_ok=True)
@@ -61,7 +66,7 @@ def run_net(args):
     n_ops = sum(len(f) for f in net['fibers'])
     runs = []
     for cfg in cfgs:
-        r = vlib.lyrun(BINS[cfg], path, ['--sched-trace', '--steps', str(200000 + 2000 * n_ops)], timeout=30, cwd=d)
+        r = vlib.lyrun(BINS[cfg], path, ['--sched-trace', '--steps', str(200000 + 4000 * n_ops)] + gc_opts, timeout=30, cwd=d)
         h = gen_chan.History(net, r.out)
         problems = h.check()
         runs.append({
